@@ -85,12 +85,19 @@ class C10(Prop):
                 return rows[0] * g[j] + cols[0] * f[i]
             T1, T2 = ufl.as_tensor(body * h[j], (i,)), ufl.as_tensor(body * h[i], (j,))
             return T1[0] + 3 * T2[0] if rng.random() < 0.5 else ufl.as_tensor(T1[1], (j,))[0] - ufl.as_tensor(T2[1], (i,))[1]
+        if kind == "capture_ct_dot":     # a nested component tensor that SURVIVES (branch of a tensor-valued conditional) binds the index the outer one is read with
+            inner_t = ufl.as_vector(f[j] * h[i], j)
+            e = ufl.conditional(ufl.lt(f[0], g[1]), inner_t, h[i] * g)
+            body = e[0] + 2 * e[1]
+            if rng.random() < 0.5:
+                return ufl.as_vector(body, i)[j] * g[j]
+            return ufl.as_vector(body, i)[j]
         if kind == "nested_ct":
             T = ufl.as_tensor(ufl.as_tensor(A[i, j] * 2, (j, i))[i, j] + A[i, j], (i, j))
             return T[j, i] * A[i, j]
         return G.expr((), (), 2)
 
-    KINDS = ["var_revisit", "var_revisit_idx", "capture", "capture_open", "shadow_fixed", "shadow_free", "zero_fi", "nested_ct", "ct_twice", "zero_fi2", "zero_fi2_open", "two_binders"]
+    KINDS = ["var_revisit", "var_revisit_idx", "capture", "capture_open", "shadow_fixed", "shadow_free", "zero_fi", "nested_ct", "ct_twice", "zero_fi2", "zero_fi2_open", "two_binders", "capture_ct_dot"]
 
     def gen_case(self, rng, k):
         G = gen.Gen(rng, gdim=2, math=(k % 3 == 0), compound=False, derivs=False, reuse=0.9, tensor_cond=(k % 5 == 0))
